@@ -274,7 +274,11 @@ class Runner:
         self.outside = False     # an insertion with fewer axes than the layout's fixed/named/free items
 
     def snapshot(self, coll):
-        return {n: nd_of(coll._arrays[n]) for n in coll._arrays}, tuple(coll.shape)
+        """everything observable on a collection: raw arrays, layouts, common shape, axes and every get(name)"""
+        return ({n: nd_of(coll._arrays[n]) for n in coll._arrays}, tuple(coll.shape),
+                {n: tuple("..." if x is Ellipsis else x for x in coll._layouts[n]) if n in coll._layouts else None
+                 for n in coll._arrays},
+                dict(coll.axes), [(n, get_res(coll, n)) for n in coll._arrays])
 
     def call(self, o):
         k = o["op"]
@@ -295,8 +299,13 @@ class Runner:
                 why = "copy-not-independent"
             elif self.snapshot(cp) != snap or cp.axes != orig.axes or cp.expand_axis != orig.expand_axis:
                 why = "copy-not-equal"
-            self.originals.append((orig, snap))
-            self.main = cp
+            # the history continues on the copy (default) or on the original; the other one is frozen and
+            # must keep all its observables whatever happens afterwards
+            if o.get("keep") == "original":
+                self.originals.append((cp, self.snapshot(cp)))
+            else:
+                self.originals.append((orig, snap))
+                self.main = cp
             return ("ok", None), why
         if k == "link":
             if self.child is not None:
@@ -405,7 +414,11 @@ class Runner:
                     why = "child-" + w
         if why is None:
             for orig, snap in self.originals:
-                if self.snapshot(orig) != snap:
+                try:
+                    same = self.snapshot(orig) == snap
+                except Exception:
+                    same = False
+                if not same:
                     why = "copy-not-independent"
         self.oracle.append(why)
 
@@ -611,6 +624,51 @@ def gen_named_history(rng, length):
     return {"app": app, "ops": ops}
 
 
+def gen_copy_history(rng, length):
+    """two collections related by copy(): a few insertions, copy (the history continues on either side),
+    then pop / set with another layout / resize / update on that side; the other side is only observed"""
+    app = rng.random() < 0.5
+    runner = Runner(app)
+    ops = []
+    def push(o):
+        ops.append(o)
+        runner.step(o)
+    for _ in range(rng.choice([1, 2, 2, 3])):
+        lay = list(rng.choice(NAMED_LAYOUTS + [["..."]]))
+        st = lay.index("...")
+        axes = runner.main.get_named_axes()
+        dim = lambda x: x if isinstance(x, int) else (axes.get(x, rng.choice([2, 3, 4])) if isinstance(x, str) else rng.choice([1, 2]))
+        shape = [dim(x) for x in lay[:st]] + rand_shared(rng, runner.main.shape)[:2] + [dim(x) for x in lay[st + 1:]]
+        push({"op": "set", "t": "main", "name": rng.randrange(3), "shape": shape, "vals": rand_vals(rng, shape),
+              "layout": lay, "resize": False, "check": True})
+    push({"op": "copy", "keep": rng.choice(["original", "copy"])})
+    for _ in range(length):
+        coll = runner.main
+        stored = [NAMES.index(n) for n in coll._arrays]
+        r = rng.random()
+        if stored and r < 0.35:
+            push({"op": "pop", "t": "main", "name": rng.choice(stored)})
+        elif stored and r < 0.70:
+            name = rng.choice(stored)
+            raw = coll._arrays[NAMES[name]]
+            cur = ["..." if x is Ellipsis else x for x in coll._layouts.get(NAMES[name], [Ellipsis])]
+            lay = list(rng.choice([l for l in NAMED_LAYOUTS + [["..."], ["...", None]] if l != cur]))
+            shape = list(raw.shape)
+            while len(shape) + 1 < len(lay):
+                shape = [1] + shape
+            push({"op": "set", "t": "main", "name": name, "shape": shape, "vals": rand_vals(rng, shape),
+                  "layout": lay, "resize": rng.random() < 0.3, "check": rng.random() < 0.7})
+        elif r < 0.85 and coll.axes:
+            push({"op": "resize", "t": "main", "ax": AXN.index(rng.choice(list(coll.axes))),
+                  "size": rng.choice([1, 2, 3, 4, 5]), "const": rng.choice([0, 9])})
+        elif r < 0.93:
+            push({"op": "copy", "keep": rng.choice(["original", "copy"])})
+        else:
+            o = gen_array_op(rng, runner, "main", True, "set")
+            push(o)
+    return {"app": app, "ops": ops}
+
+
 def exhaustive_histories(maxlen):
     """all histories up to maxlen over a small alphabet on tiny shapes (both conventions)"""
     def s(name, shape, layout=None, **kw):
@@ -670,6 +728,11 @@ def corpus():
                              v(0, [3, 2], ["n", "..."]), v(0, [2, 3], ["...", None]),
                              {"op": "resize", "t": "main", "ax": 0, "size": 5, "const": 0}]}
         for app in (False, True)
+    ] + [
+        # copy, then pop / re-layout on one side: the other side keeps every observable
+        {"app": app, "ops": [v(0, [2, 3], ["...", "n"]), v(1, [2], ["..."]), {"op": "copy", "keep": keep},
+                             {"op": "pop", "t": "main", "name": 0}, v(1, [2, 1], ["...", None])]}
+        for app in (False, True) for keep in ("original", "copy")
     ] + [
         # control: another array carries the axis -> centre pad / crop
         {"app": app, "ops": [v(0, [1, 5], ["...", "n"]), v(1, [1, 3], ["...", "n"], rs=True),
@@ -809,6 +872,17 @@ def statematrix_cases(ctx, n):
             sm4.expand(len(shape) + 1)
             if tuple(cp4.system.shape) != c_sys or tuple(sm4.system.shape) != tuple(sm4.shape):
                 bad.append((case, "copy-linked-collection-shared"))
+            # a pop / re-layout on a copy must not reach the original (and conversely)
+            c5 = np.array(rand_vals(rng, [1] * len(shape) + [2 * ns + 1, 2]), dtype=float).reshape([1] * len(shape) + [2 * ns + 1, 2])
+            sm5 = StateMatrix(init, equilibrium=eq, coords=c5, check=False)
+            cp5 = sm5.copy()
+            cp5.arrays.pop("coords")
+            ok5 = sm5.coords is not None and same_array(np.asarray(sm5.coords), c5) and cp5.coords is None
+            cp6 = sm5.copy()
+            sm5.arrays.set("coords", np.zeros((2 * ns + 1, 1)), layout=["nstate", ...])
+            ok5 = ok5 and cp6.coords is not None and same_array(np.asarray(cp6.coords), c5)
+            if not ok5:
+                bad.append((dict(case, coords=c5.tolist()), "copy-shares-layouts"))
             # stack / unstack of matrices carrying coords, any axis, compared slice by slice with the inputs
             kd = rng.choice([1, 2, 3])
             nsm = rng.choice([2, 2, 3])
@@ -874,6 +948,8 @@ def run(ctx):
                                  allow_other_layouts=(i % 4 != 0)))
     for i in range(50 if quick else 1000):
         cases.append(gen_named_history(ctx.rng, ctx.rng.randrange(2, 7)))
+    for i in range(40 if quick else 800):
+        cases.append(gen_copy_history(ctx.rng, ctx.rng.randrange(1, 5)))
     if not quick:
         cases += list(exhaustive_histories(3))
     else:
